@@ -38,7 +38,7 @@ def check_c19(ctx):
                 "amount; same and different names and units) x every selection sequence without repetition (all sub-lists in all "
                 "orders), enumerated by TLC with order independence checked on the model and the predicted sums printed; replayed "
                 "through combine_ingredients_selected and combine_ingredients of the sub-list. (2) canonically valid CookDoc recipes "
-                "and the repository's recipes x factors {1, 0.5, 3} through parse_recipe and deref_component against the core recipe. "
+                "and the repository's recipes x factors {1, 0.5, 3, 1.005, 0.999, 1 + 1e-9} through parse_recipe and deref_component against the core recipe. "
                 "non-trivial = combine cases with at least two selected entries + valid mirrored recipes")
     ctx.extra["exhaustive"] = quick
     ctx.extra["mirrored_recipes"] = sum(1 for x in obs if x["kind_rec"] == "mirror" and x["obs"]["st"] == "ok")
